@@ -71,7 +71,9 @@ fn bmp_char(v: u16) -> char {
 }
 
 // @bound ONE mapping (any BMP char, any non-zero 16-bit glyph id): builder succeeds and the spec lookup over the produced arrays answers exactly that mapping for every BMP code point
-// @timeout 900
+// @timeout 2400
+// @mem 30
+// @tier thorough
 #[cfg_attr(kani, kani::proof)]
 #[cfg_attr(kani, kani::unwind(6))]
 pub fn c08_format4_builder_one_mapping() {
@@ -84,7 +86,8 @@ pub fn c08_format4_builder_one_mapping() {
 }
 
 // @bound TWO mappings (ascending distinct BMP chars, any non-zero 16-bit glyph ids)
-// @timeout 1800
+// @timeout 3000
+// @mem 30
 // @tier thorough
 #[cfg_attr(kani, kani::proof)]
 #[cfg_attr(kani, kani::unwind(7))]
@@ -95,6 +98,29 @@ pub fn c08_format4_builder_two_mappings() {
     let pairs = [(bmp_char(c[0]), GlyphId::new(g[0] as u32)), (bmp_char(c[1]), GlyphId::new(g[1] as u32))];
     check(&pairs);
     kani::cover!(c[1] == c[0] + 1 && g[1] != g[0].wrapping_add(1), "adjacent chars, non-consecutive gids");
+}
+
+// @bound FOUR mappings in the shape {a, a+1, b, b+1} with b >= a+3 and non-consecutive glyph ids inside each run (two glyphIdArray segments — the only shape in which idRangeOffset of a later segment depends on the ids already written)
+// @timeout 3000
+// @mem 30
+// @tier thorough
+#[cfg_attr(kani, kani::proof)]
+#[cfg_attr(kani, kani::unwind(9))]
+pub fn c08_format4_builder_two_glyph_array_segments() {
+    let a: u16 = kani::any();
+    let b: u16 = kani::any();
+    kani::assume(a < 0xD000 && b < 0xD000 && b >= a + 3);
+    let g: [u16; 4] = kani::any();
+    kani::assume(g[0] != 0 && g[1] != 0 && g[2] != 0 && g[3] != 0);
+    kani::assume(g[1] != g[0].wrapping_add(1) && g[3] != g[2].wrapping_add(1));
+    let pairs = [
+        (bmp_char(a), GlyphId::new(g[0] as u32)),
+        (bmp_char(a + 1), GlyphId::new(g[1] as u32)),
+        (bmp_char(b), GlyphId::new(g[2] as u32)),
+        (bmp_char(b + 1), GlyphId::new(g[3] as u32)),
+    ];
+    check(&pairs);
+    kani::cover!(true, "reached");
 }
 
 #[cfg(all(test, not(kani)))]
